@@ -22,7 +22,7 @@ def norm(m):
 
 def main():
     muts = []
-    for f in ["mutant_candidates.py", "mutants_seat.py", "mutants_reg.py"]:
+    for f in ["mutant_candidates.py", "mutants_seat.py", "mutants_reg.py", "mutants_enum.py", "mutants_layers.py"]:
         p = os.path.join(HERE, "notes", f)
         if os.path.exists(p):
             muts += [norm(m) for m in load(p)]
